@@ -11,12 +11,12 @@ theorem idx1_eq (d0 : Nat) : idx1 d0 = lexList [d0] := (keys_lex d0 0 0).1
 theorem idx2_eq (d0 d1 : Nat) : idx2 d0 d1 = lexList [d0, d1] := (keys_lex d0 d1 0).2.1
 theorem idx3_eq (d0 d1 d2 : Nat) : idx3 d0 d1 d2 = lexList [d0, d1, d2] := (keys_lex d0 d1 d2).2.2
 
-theorem fn1_map (d0 : Nat) (f : List Nat → V) : (keys d0).map (fn1' f) = (lexList [d0]).map f := by
+theorem fn1_map (d0 : Nat) (f : List Nat → Nat) : (keys d0).map (fn1 f) = (lexList [d0]).map f := by
   rw [← idx1_eq, idx1, List.map_map]; rfl
-theorem fn2_map (d0 d1 : Nat) (f : List Nat → V) : (keysD2 d0 d1).map (fn2' f) = (lexList [d0, d1]).map f := by
+theorem fn2_map (d0 d1 : Nat) (f : List Nat → Nat) : (keysD2 d0 d1).map (fn2 f) = (lexList [d0, d1]).map f := by
   rw [← idx2_eq, idx2, List.map_map]; rfl
-theorem fn3_map (d0 d1 d2 : Nat) (f : List Nat → V) :
-    (keysD3 d0 d1 d2).map (fn3' f) = (lexList [d0, d1, d2]).map f := by
+theorem fn3_map (d0 d1 d2 : Nat) (f : List Nat → Nat) :
+    (keysD3 d0 d1 d2).map (fn3 f) = (lexList [d0, d1, d2]).map f := by
   rw [← idx3_eq, idx3, List.map_map]; rfl
 
 /-! ### out-of-shape indices, labelled -/
@@ -182,6 +182,6 @@ theorem L2.dump_it {d0 d1 : Nat} {a : MArrD2 Nat} (h : Shape2 d0 d1 a.toU) :
   rw [L2.dump_eq h]; rfl
 theorem L3.dump_it {d0 d1 d2 : Nat} {a : MArrD3 Nat} (h : Shape3 d0 d1 d2 a.toU) :
     (L3.dump d0 d1 d2 a).it = ((a.inner.inner.map fun p => p.inner.inner.map (·.inner)).flatten).flatten := by
-  rw [L3.dump_eq h, flat3_eq]; simp [specDump, flat2, MArrD3.toU, MArrD2.toU, MArrD1.toU]
+  rw [L3.dump_eq h, flat3_eq]; rfl
 
 end SLV.MArr
